@@ -39,6 +39,8 @@ Z = [skrgen.zsk(i, ttl=R.choice([3600, 86400, 172800])) for i in range(4)]
 Z512 = ksrxml.mk_key(P.rsa(1024, 65537, 5), alg=10, ttl=3600)
 ZEC = ksrxml.mk_key(P.ec(256, 5), alg=13, ttl=3600)
 P.save()
+K["ksk_rc"] = ksrxml.mk_key(P.ec_revoke_carry(13), alg=13, flags=257, ident="Krc")     # setting REVOKE carries: revoked tag = tag + 129
+P.save()
 MODS = [[{"id": 0, "objs": sum((S.pair(k["id"], k) for k in K.values()), [])}]]
 KSKS = {n: ceremony.ksk_def(k) for n, k in K.items()}
 
@@ -119,6 +121,8 @@ for nb in ([2, 3, 9] if TIER == "quick" else range(1, 10)):
             else:
                 schema[i] = {"publish": R.sample(names3, R.randrange(0, 3)), "sign": R.sample(names3, R.randrange(1, 3)), "revoke": R.sample(names3, R.randrange(0, 2))}
         run("multi-slot-" + style, schema, zsl, ttl=R.choice([172800, 300]))
+run("revoke-tag-carry", {1: {"publish": ["ksk_rc", "ksk_ec"], "sign": ["ksk_rc"], "revoke": []}, 2: {"publish": ["ksk_ec"], "sign": ["ksk_rc", "ksk_ec"], "revoke": ["ksk_rc"]},
+                         3: {"publish": ["ksk_ec"], "sign": ["ksk_ec"], "revoke": []}}, [[ZEC], [ZEC], [ZEC]])
 # schema missing a slot
 run("schema-missing-slot", {1: {"publish": ["ksk_a"], "sign": ["ksk_a"], "revoke": []}}, [[Z[0]], [Z[0]]])
 
